@@ -334,6 +334,75 @@ fn stat_history(stat: &'static str, first: &[usize], second: &[usize]) -> Option
     }
 }
 
+/// Statistics of values reached through short histories of library calls (state change to a
+/// frequency spectrum, entries changed through the indexing operator, normalizing again, clone_from
+/// into a spectrum of another shape, masking through inner_mut): the statistic is the definition on
+/// the values the history leaves, whatever the history was.
+pub(super) fn stat_after_histories(prop: &str) -> (u64, Vec<Viol>) {
+    use super::c13_lib::{live_stat, run_history, Op};
+    let histories: Vec<Vec<Op>> = vec![
+        vec![Op::IntoNorm],
+        vec![Op::IntoNorm, Op::IntoNorm],
+        vec![Op::IntoNorm, Op::Scale],
+        vec![Op::IntoNorm, Op::Scale, Op::IntoNorm],
+        vec![Op::IntoNorm, Op::Scale, Op::Norm],
+        vec![Op::IntoNorm, Op::MaskIdx, Op::Norm],
+        vec![Op::IntoNorm, Op::MaskIdx, Op::IntoNorm],
+        vec![Op::Norm, Op::Scale, Op::Norm],
+        vec![Op::Scale],
+        vec![Op::Mask],
+        vec![Op::Mask, Op::Scale],
+        vec![Op::Scale, Op::Mask, Op::IntoNorm],
+        vec![Op::CloneFrom],
+        vec![Op::CloneFrom, Op::Scale],
+        vec![Op::IntoNorm, Op::CloneFrom],
+        vec![Op::Fold],
+        vec![Op::IntoNorm, Op::Fold],
+    ];
+    let inits: Vec<RefArray> = vec![
+        RefArray::from_fn(&[3, 5], |f, _| ((f * 5) % 7 + 1) as f64),
+        RefArray::from_fn(&[5, 3], |f, _| ((f * 3) % 11 + 2) as f64),
+        RefArray::from_fn(&[3, 3], |f, _| ((f * 7) % 5 + 1) as f64),
+        RefArray::from_fn(&[2, 3, 4], |f, _| ((f * 5) % 9 + 1) as f64),
+        RefArray::from_fn(&[2, 3, 2, 4], |f, _| ((f * 7) % 13 + 1) as f64),
+        RefArray::from_fn(&[7], |f, _| ((f * 3) % 5 + 1) as f64),
+    ];
+    let mut viols: Vec<Viol> = Vec::new();
+    let mut n = 0u64;
+    for init in &inits {
+        for hist in &histories {
+            let (live, expect) = match run_history(init, hist) {
+                Ok(x) => x,
+                Err((k, w, j)) => {
+                    viols.push((k.replacen("C13|", &format!("{prop}|"), 1), w, j));
+                    continue;
+                }
+            };
+            for stat in ["f2", "f3", "f4", "fst", "king", "pi", "pi-xy", "r0", "r1", "sum", "theta"] {
+                if !admissible(stat, &expect.shape) {
+                    continue;
+                }
+                n += 1;
+                let r = ref_stat(stat, &expect);
+                let scale = match stat {
+                    "sum" | "pi" | "theta" | "pi-xy" => expect.data.iter().fold(0.0f64, |m, v| m.max(v.abs())).max(1.0),
+                    _ => 1.0,
+                };
+                let names: Vec<String> = hist.iter().map(|o| format!("{o:?}")).collect();
+                match catch(|| live_stat(&live, stat)) {
+                    Ok(Ok(v)) if close_stat(v, r, scale) => {}
+                    other => viols.push((
+                        format!("{prop}|lib|{stat}-after-history"),
+                        format!("{stat} of a spectrum of shape {:?} after {names:?}: {other:?}, the definition on the values the history leaves gives {r:e}", init.shape),
+                        J::obj([("kind", J::s("stat-history")), ("shape", J::usizes(&init.shape)), ("values", J::f64s(&init.data)), ("history", J::s(names.join(" "))), ("stat", J::s(stat))]),
+                    )),
+                }
+            }
+        }
+    }
+    (n, viols)
+}
+
 /// The spectra of the report-format grid.
 fn format_spectrum(which: usize) -> RefArray {
     match which {
@@ -653,6 +722,21 @@ pub fn run(tier: Tier) -> i32 {
             evaluations: (hj.len() + cross.len()) as u64,
             nontrivial: (hj.len() + cross.len()) as u64,
             note: format!("{} ordered pairs (statistic on shape A, then on shape B) over shapes of equal dimension, and {} ordered pairs of different statistics on one spectrum, each on a newly spawned thread: the second value equals the definition", hj.len(), cross.len()),
+            exhaustive: true,
+            extra: vec![],
+        });
+    }
+    // statistics of values reached through library histories
+    {
+        let (n, viols) = stat_after_histories("C06");
+        for (k, w, j) in viols {
+            rep.violation(k, w, j);
+        }
+        rep.part(Part {
+            name: "lib: statistics after histories of library calls".into(),
+            evaluations: n,
+            nontrivial: n,
+            note: "6 spectra x 17 histories over {into_normalized, normalize, an entry scaled / the corners zeroed through the indexing operator, masking through inner_mut, clone_from into a spectrum of the reversed shape, fold}: every admissible statistic of the value reached equals the definition on the values the history leaves".into(),
             exhaustive: true,
             extra: vec![],
         });
